@@ -207,13 +207,27 @@ func editedCommon(base string, e cdEdit, k int) (cd types.CommonCircuitData, rc 
 	if !e.apply(doc) {
 		return cd, rc, false, nil
 	}
-	if k > 0 {
-		doc["config"].(map[string]any)["fri_config"].(map[string]any)["num_query_rounds"] = json.Number(strconv.Itoa(k))
-		doc["fri_params"].(map[string]any)["config"].(map[string]any)["num_query_rounds"] = json.Number(strconv.Itoa(k))
+	cd, rc, err = commonFromDoc(doc, k)
+	return cd, rc, true, err
+}
+
+// commonFromDoc parses an (edited) common-data document with both readers; k>0 first restricts
+// the number of query rounds (both copies) to k unless the edit changed them.
+func commonFromDoc(doc map[string]any, k int) (cd types.CommonCircuitData, rc ref.Common, err error) {
+	if k > 0 && k < 28 {
+		for _, m := range []map[string]any{doc["config"].(map[string]any)["fri_config"].(map[string]any), doc["fri_params"].(map[string]any)["config"].(map[string]any)} {
+			if n, _ := m["num_query_rounds"].(json.Number); n.String() == "28" {
+				m["num_query_rounds"] = json.Number(strconv.Itoa(k))
+			} else {
+				// an edit moved it away from 28: keep the same offset relative to k
+				v, _ := strconv.Atoi(n.String())
+				m["num_query_rounds"] = json.Number(strconv.Itoa(k + v - 28))
+			}
+		}
 	}
 	b, _ := json.Marshal(doc)
 	if uerr := json.Unmarshal(b, &rc); uerr != nil {
-		return cd, rc, true, uerr
+		return cd, rc, uerr
 	}
 	f, ferr := os.CreateTemp(os.Getenv("VERIF_OUT"), "cd-*.json")
 	if ferr != nil {
@@ -230,7 +244,7 @@ func editedCommon(base string, e cdEdit, k int) (cd types.CommonCircuitData, rc 
 		}()
 		cd = types.ReadCommonCircuitData(f.Name())
 	}()
-	return cd, rc, true, err
+	return cd, rc, err
 }
 
 // refVerdict runs the reference verifier, turning panics (shape mismatches) into rejections.
